@@ -2,7 +2,7 @@
 (* Exhaustive check of the laws of the projection over the case space of  *)
 (* strength T (2 = pairwise, 3 = three-wise) - the same Cases the driver  *)
 (* executes on the real encoders/decoders.                                *)
-EXTENDS Codec
+EXTENDS Codec, Json
 
 CONSTANT T
 VARIABLES stage, c
@@ -21,5 +21,7 @@ Idempotent   == ProjIdempotent(c.rec, c.fmt, c.v)
 DocumentedLossOnly == OnlyDocumentedLoss(c.rec, c.fmt, c.v) /\ LossIsBenign(c.rec, c.fmt, c.v)
 ExportComposes == c.rec = "Pin" => ExportIsComposition(c.v)
 \* a value that went through a format is a fixed point of the round trip: nothing is "bad" about Proj itself
+\* thorough GEN: every state of this model is a case; the (parallel) model checker prints them
+Emit == stage = 1 => PrintT(ToJson([rec |-> c.rec, fmt |-> c.fmt, v |-> c.v]))
 ProjAccepted == BadFields([rec |-> c.rec, fmt |-> c.fmt, v |-> c.v, ok |-> TRUE, got |-> Proj(c.rec, c.fmt, c.v)]) = {}
 =============================================================================
